@@ -21,6 +21,8 @@ CONSTANTS
   Sensors,   \* mule: peers that are sensor nodes (only ever served by direct delivery)
   Budget,    \* spray-and-wait multiplicity L
   Enabled,   \* subset of action names this family explores
+  VecDests,  \* prophet: the destinations summary vectors speak about in this family (all: Peers \cup {"far", "bcast"})
+  VecLevels, \* prophet: the levels they advertise (all: 0..3)
   MaxSteps,
   EmitMode
 
@@ -330,7 +332,7 @@ Next ==
   \/ \E p \in Peers : \E pick \in [PendingSet(World) -> SUBSET Peers] : PeerUp(p, pick)
   \/ \E pick \in [PendingSet(World) -> SUBSET Peers] : RetryTick(pick)
   \/ CleanTick \/ Advance \/ Restart \/ Recompute \/ (\E p \in Peers : Learn(p))
-  \/ \E p \in Peers, d \in Peers \cup {"far", "bcast"}, v \in 0..3 : Vector(p, d, v)
+  \/ \E p \in Peers, d \in VecDests, v \in VecLevels : Vector(p, d, v)
 
 Spec == Init /\ [][Next]_vars
 
